@@ -45,7 +45,8 @@ theorem run_frame_other : Arca.Gen.otherHeapWrites = [] := by decide
 /-- the `loopState` fields that a run mutates (by assignment, map update, delete, send, close — or, for `dag`,
     `context`/`cancel`, through their methods) -/
 def mutableFields : List String :=
-  ["dag", "data", "runningSteps", "outputDataChannel", "outputDone", "waitingOutputs", "recentErrors", "context", "cancel", "lock"]
+  ["dag", "data", "runningSteps", "reportedStages", "completedSteps", "outputDataChannel", "outputDone", "waitingOutputs",
+   "recentErrors", "context", "cancel", "lock"]
 
 /-- initialiser kinds that cannot be shared with another run -/
 def freshKinds : List String :=
